@@ -5,6 +5,7 @@ package mux
 import (
 	"context"
 	"fmt"
+	"net"
 	"sort"
 	"strings"
 	"testing"
@@ -185,4 +186,81 @@ func TestVerifMcc(t *testing.T) {
 		results[i] = buf
 		emit(i, buf) // at once: the output tells which scenario was running if the process dies
 	}
+}
+
+// A session that is registered and alive but whose Open() does not return (a peer that stopped accepting streams): the dial
+// gRPC makes on it is parked.  Whatever happens to that dial, the next session-list update must be applied, the state must
+// stay readable and calls must go to the other session.
+//
+// output: PARK entered=<0|1> update=ok|blocked can=ok|blocked rpc=<code>
+func TestVerifMccParkedDial(t *testing.T) {
+	_, w, done := verifIO(t)
+	defer done()
+	ctx, cancel := context.WithCancel(context.Background())
+	defer cancel()
+	lis, err := net.Listen("tcp", "127.0.0.1:0")
+	if err != nil {
+		t.Fatal(err)
+	}
+	srv := grpc.NewServer()
+	healthpb.RegisterHealthServer(srv, health.NewServer())
+	go func() { _ = srv.Serve(lis) }()
+	defer srv.Stop()
+	mcc, err := grpcutil.NewMultiClientConn(ctx, "verif-park", grpcutil.MakeDialOptions(nil, metrics.GetGRPCClientMetrics("outbound"))...)
+	if err != nil {
+		t.Fatal(err)
+	}
+	release := make(chan struct{})
+	entered := make(chan struct{}, 16)
+	parked := func() (net.Conn, error) {
+		select {
+		case entered <- struct{}{}:
+		default:
+		}
+		<-release
+		return nil, fmt.Errorf("verif: session closed")
+	}
+	good := func() (net.Conn, error) { return net.Dial("tcp", lis.Addr().String()) }
+	mcc.UpdateState(map[string]func() (net.Conn, error){"0": parked})
+	// a call makes the channel connect: its dial on session 0 parks
+	go func() {
+		c, cc := context.WithTimeout(ctx, 8*time.Second)
+		defer cc()
+		_, _ = healthpb.NewHealthClient(mcc).Check(c, &healthpb.HealthCheckRequest{})
+	}()
+	ent := 0
+	select {
+	case <-entered:
+		ent = 1
+	case <-time.After(3 * time.Second):
+	}
+	within := func(d time.Duration, f func()) string {
+		ch := make(chan struct{})
+		go func() { f(); close(ch) }()
+		select {
+		case <-ch:
+			return "ok"
+		case <-time.After(d):
+			return "blocked"
+		}
+	}
+	upd := within(2*time.Second, func() { mcc.UpdateState(map[string]func() (net.Conn, error){"0": parked, "1": good}) })
+	can := within(2*time.Second, func() { _ = mcc.CanMakeCalls() })
+	code := codes.Unknown
+	if upd == "ok" {
+		// calls must resume over session 1 while the dial on session 0 is still parked
+		deadline := time.Now().Add(4 * time.Second)
+		for time.Now().Before(deadline) {
+			c, cc := context.WithTimeout(ctx, time.Second)
+			_, e := healthpb.NewHealthClient(mcc).Check(c, &healthpb.HealthCheckRequest{})
+			cc()
+			code = status.Code(e)
+			if code == codes.OK {
+				break
+			}
+			time.Sleep(50 * time.Millisecond)
+		}
+	}
+	close(release)
+	fmt.Fprintf(w, "PARK entered=%d update=%s can=%s rpc=%d\n", ent, upd, can, int(code))
 }
